@@ -6,7 +6,10 @@
 //!
 //! requests:
 //!   begin hcfg <build: default|optimism> <flavor: mainnet|optimism> <SPEC> <reward 0|1> <coinbase balance hex>
+//!   hcfg-build <default|optimism>   first line of every request file: which binary answers (the optimism binary also
+//!                           runs cases tagged `default`; the default binary answers `wrong-build` to an `optimism` case)
 //!   hcfg spec <SPEC>        evm.modify_spec_id(s)
+//!   hcfg hspec <SPEC>       evm.handler.modify_spec_id(s)
 //!   hcfg bspec <SPEC>       evm = evm.modify().with_spec_id(s).build()
 //!   hcfg app <reg>          evm.handler.append_handler_register{,_plain,_box}(reg)
 //!   hcfg bapp <reg>         evm = evm.modify().append_handler_register{,_box}(reg).build()
@@ -19,7 +22,7 @@
 //!   hcfg tx <xfer|tocb|self|call> <gas_limit> <gas_price> <prio|-> <basefee> <value> <used> <l1|->
 //! registers: noop (plain fn), insp (inspector_handle_register, NoOpInspector), itab (boxed closure that
 //!   installs a custom instruction), opt0 / opt1 (optimism_handle_register(false/true), optimism build),
-//!   setm / clr (user registers that assign / clear post_execution.reward_beneficiary).
+//!   setm / clr / tgl (user registers that assign / clear / toggle post_execution.reward_beneficiary).
 //! replies:
 //!   state: `[popped=<b> ]spec=<SPEC> opt=<b> regs=<n> rw=<b> trw=<b>`   (rw = reward_beneficiary.is_some())
 //!   tx:    `<fee part> caller=<bal:touched>,<nonce> to=<bal:touched> twin: <fee part of the twin> same=<b>`
@@ -111,6 +114,14 @@ fn setm_reg(h: &mut H<'_>) {
             Some(Box::new(revm::handler::mainnet::reward_beneficiary::<SPEC, NoOpInspector, InMemoryDB>));
     });
 }
+/// a user register whose effect depends on what it finds: fills an empty slot, empties a filled one
+fn tgl_reg(h: &mut H<'_>) {
+    if h.post_execution.reward_beneficiary.is_some() {
+        clr_reg(h)
+    } else {
+        setm_reg(h)
+    }
+}
 fn custom_instruction(_i: &mut Interpreter, _h: &mut Context<NoOpInspector, InMemoryDB>) {}
 
 fn make_reg(name: &str) -> Option<HandleRegisters<'static, NoOpInspector, InMemoryDB>> {
@@ -122,6 +133,7 @@ fn make_reg(name: &str) -> Option<HandleRegisters<'static, NoOpInspector, InMemo
         })),
         "setm" => HandleRegisters::Box(Box::new(|h: &mut H<'_>| setm_reg(h))),
         "clr" => HandleRegisters::Plain(clr_reg),
+        "tgl" => HandleRegisters::Plain(tgl_reg),
         #[cfg(feature = "optimism")]
         "opt0" => HandleRegisters::Box(revm::optimism::optimism_handle_register::<InMemoryDB, NoOpInspector>(false)),
         #[cfg(feature = "optimism")]
@@ -150,6 +162,11 @@ fn apply(mut evm: E, t: &[&str], opt_case: bool) -> Result<(E, Option<bool>), E>
         ("spec", 2) => {
             let Some(s) = spec_arg(1) else { return Err(evm) };
             evm.modify_spec_id(s);
+            Ok((evm, None))
+        }
+        ("hspec", 2) => {
+            let Some(s) = spec_arg(1) else { return Err(evm) };
+            evm.handler.modify_spec_id(s);
             Ok((evm, None))
         }
         ("bspec", 2) => {
@@ -513,7 +530,7 @@ fn gen_case(rng: &mut Rng, stream: u8, max_ops: u64, out: &mut Vec<String>) {
         let line = match c {
             0..=17 => {
                 spec = if rng.chance(1, 8) { spec } else { *rng.pick(&specs) };
-                format!("hcfg spec {:?}", spec)
+                format!("hcfg {} {:?}", if rng.chance(1, 3) { "hspec" } else { "spec" }, spec)
             }
             18..=27 => {
                 spec = *rng.pick(&specs);
@@ -524,9 +541,9 @@ fn gen_case(rng: &mut Rng, stream: u8, max_ops: u64, out: &mut Vec<String>) {
                 let reg = if stream == 0 || rng.chance(7, 10) {
                     if opt_case && rng.chance(1, 5) { "opt0" } else { *rng.pick(NEUTRAL) }
                 } else if opt_case {
-                    *rng.pick(&["setm", "clr", "opt1", "opt0"])
+                    *rng.pick(&["setm", "clr", "tgl", "opt1", "opt0"])
                 } else {
-                    *rng.pick(&["setm", "clr"])
+                    *rng.pick(&["setm", "clr", "tgl"])
                 };
                 format!("hcfg {op} {reg}")
             }
@@ -599,13 +616,21 @@ pub fn gen(seed: u64, n: usize) -> Vec<String> {
 }
 
 pub fn run(seed: u64, n: usize, replay: Option<Vec<String>>, out: &mut Out) {
-    let lines = replay.unwrap_or_else(|| gen(seed, n));
+    let mut lines = replay.unwrap_or_else(|| gen(seed, n));
+    // every request file starts by naming the binary that answers it
+    let first = format!("hcfg-build {}", build_name());
+    if lines.first() != Some(&first) {
+        lines.insert(0, first.clone());
+    }
     let mut case: Option<Case> = None;
     let mut disabled_case = false;
     let mut reconfigs = 0u32;
     for l in lines {
         let t: Vec<&str> = l.split(' ').collect();
-        let reply = if t.len() >= 2 && t[0] == "begin" && t[1] == "hcfg" {
+        let reply = if t[0] == "hcfg-build" {
+            // a file recorded by the other binary: say so, the model then expects `wrong-build` where it matters
+            if t.len() == 2 && t[1] == build_name() { "ok".to_string() } else { "other-binary".to_string() }
+        } else if t.len() >= 2 && t[0] == "begin" && t[1] == "hcfg" {
             let (c, r) = {
                 let t2 = t.clone();
                 std::panic::catch_unwind(AssertUnwindSafe(|| Case::begin(&t2[2..]))).unwrap_or((None, "panic".into()))
